@@ -1,2 +1,20 @@
-From BMC Require Import Base.
-Theorem C13_placeholder : True. Proof. exact I. Qed.
+(* C13 — blocking calls never outlive their context: the deadline arithmetic
+   of the retry loop (PARTIAL: wall-clock behaviour of runtime and kernel is
+   measured by the correspondence run, not proved).  [retry t D T atts sleeps]:
+   start time, context deadline, per-attempt timeout, what each attempt would
+   take and whether its reply is a valid final response, the back-off sleeps. *)
+From BMC Require Import Base Timing.
+
+Theorem C13_deadline : forall atts sleeps t D T, cr_end (retry t D T atts sleeps) <= N.max D t.
+Proof. exact retry_deadline. Qed.
+Theorem C13_expired : forall atts sleeps t D T, D <= t -> atts <> [] ->
+  let r := retry t D T atts sleeps in
+  cr_end r = t /\ cr_attempts r = 1%nat /\ (cr_ok r = true -> exists rest, atts = (0, true) :: rest).
+Proof. exact retry_expired. Qed.
+Theorem C13_no_false_success : forall atts sleeps t D T,
+  cr_ok (retry t D T atts sleeps) = true -> exists d, In (d, true) atts /\ d <= T.
+Proof. exact retry_no_false_success. Qed.
+Theorem C13_terminates : forall atts sleeps t D T smin,
+  0 < smin -> Forall (fun s => smin <= s) sleeps -> t <= D ->
+  N.of_nat (cr_attempts (retry t D T atts sleeps)) <= 1 + (D - t) / smin.
+Proof. exact retry_attempts_bounded. Qed.
